@@ -550,12 +550,13 @@ int dns_decode(char *buf, size_t buflen, struct query *q, qr_t qr, char *packet,
 				readlong(packet, &data, &ttl);
 				readshort(packet, &data, &rlen);
 				rdatastart = data;
+				CHECKLEN(rlen);
 				readshort(packet, &data, &pref);
 
 				if (type == T_SRV) {
 					/* skip weight, port */
+					CHECKLEN(4);
 					data += 4;
-					CHECKLEN(0);
 				}
 
 				if (pref % 10 == 0 && pref >= 10 &&
